@@ -2,6 +2,7 @@ import TonicModel.Model.RichError
 import TonicModel.Spec.RichError
 import TonicModel.Lemmas.RichError
 import TonicModel.Lemmas.RichErrorWire
+import TonicModel.Lemmas.SpecRichError
 /-
 C20 — rich error details round-trip through a status.  Property theorems only.
 
@@ -176,6 +177,43 @@ theorem C20_wire_embedded_status (code : Nat) (msg : Bytes) (ds : List ErrorDeta
   refine ⟨_, _, hh _, prost_status_law _ hs, rfl, rfl, by simp⟩
 
 end wire
+
+/-! ## Wire conformance: the independent decoder of `Spec/` reads what tonic-types + prost write -/
+
+/-- The details bytes produced for a list of details are, read by the naive .proto-driven decoder
+of `Spec/RichError` (which shares nothing with the prost model), a google.rpc.Status with the
+outer status' code and message and exactly the attached details — kinds, order and field values.
+A symmetric deviation of writer and reader (swapped field numbers, a misspelt type URL) would
+survive the round-trip theorems but not this one. -/
+theorem C20_wire_conformant (code : Nat) (msg : Bytes) (ds : List ErrorDetail)
+    (hcode : code ≤ 16) (hmsg : Utf8Rust.valid msg = true)
+    (hwf : ∀ d ∈ ds, Spec.RichError.wfDetail d = true)
+    (hsize : (withVec prost code msg ds ()).details.length < 18446744073709551616) :
+    Spec.RichError.carries code msg ds (withVec prost code msg ds ()).details = true := by
+  obtain ⟨hd, hs⟩ := wf_of_plain code msg ds hwf hmsg hcode hsize
+  exact SpecWire.spec_carries code msg ds hd hs
+
+/-- The same for the set form (the order on the wire is not constrained for a set). -/
+theorem C20_wire_conformant_set (code : Nat) (msg : Bytes) (s : ErrorDetails)
+    (hcode : code ≤ 16) (hmsg : Utf8Rust.valid msg = true)
+    (hwf : ∀ d ∈ s.toList, Spec.RichError.wfDetail d = true)
+    (hsize : (withSet prost code msg s ()).details.length < 18446744073709551616) :
+    Spec.RichError.carriesSet code msg s.toList (withSet prost code msg s ()).details = true := by
+  obtain ⟨hd, hs⟩ := wf_of_plain code msg s.toList hwf hmsg hcode hsize
+  exact SpecWire.spec_carriesSet code msg s.toList hd hs
+
+/-- "The embedded google.rpc.Status carries the same code and message as the outer status",
+judged by the independent decoder, for any details whatsoever. -/
+theorem C20_embedded_status_spec (code : Nat) (msg : Bytes) (ds : List ErrorDetail)
+    (hcode : code ≤ 16) (hmsg : Utf8Rust.valid msg = true)
+    (hsize : (withVec prost code msg ds ()).details.length < 18446744073709551616) :
+    Spec.RichError.embeds code msg (withVec prost code msg ds ()).details = true := by
+  have hs : WFs ⟨code, msg, ds.map (intoAny prost)⟩ := by
+    refine ⟨by show (-2147483648 : Int) ≤ (code : Int) ∧ (code : Int) < 2147483648; omega, hmsg, ?_, hsize⟩
+    intro a ha
+    obtain ⟨d, _, rfl⟩ := List.mem_map.mp ha
+    exact valid_typeUrl _
+  exact SpecWire.spec_embeds code msg _ hs
 
 /-! ## `RetryInfo`: the clamp on the way in, the negative-delay rule on the way out -/
 
